@@ -9,7 +9,7 @@ from qa import REPO, VERIF
 TOKS = ["31.04.", "30.02.2019", "29.02.2019", "9-5", "8pm", "8", "20:00", "morning", "early", "late", "very", "früh", "spät", "sehr", "night", "friday", "mon", "next", "this", "at", "on", "am", "um",
         "for", "für", "3 days", "two nights", "half an hour", "1/2 day", "from", "to", "-", "until", "before", "after", "not before", "tomorrow", "heute", "now", "eom", "eoy", "march", "5th", "5.",
         "12.5.", "2019", "1930", "quarter to", "half", "halb", "noon", "midnight", "first", "last", "#x", "foo", "between", "and", "von", "bis", "31", "0:00", "24", "12 am", "12 pm", "13am", "0 pm",
-        "12.12.2020", "May 5th", "of", "the", "in the", "uhr", "h", "o'clock", "twelve", "zwölf", "einundzwanzig tage", "1 month", "monat", "weeks", "31 jan", "jan", "feb 29", "29. feb",
+        "12.12.2020", "May 5th", "00", "5.5.", "99", "of", "the", "in the", "uhr", "h", "o'clock", "twelve", "zwölf", "einundzwanzig tage", "1 month", "monat", "weeks", "31 jan", "jan", "feb 29", "29. feb",
         "30. februar", "februar", "april", "31.", "30.", "29.", "12:30-12:15", "tonight", "12", "99999999 days", "8 uhr", "İ", "ß", "ﬁ", "٣", "１２", "٣ tage", " ", "(", ")", ";", "—", "12:00-0:00"]
 
 
@@ -46,6 +46,13 @@ def fuzz_case(case):
     if o["scorer"] == "const": kw["scorer"] = DummyScorer()
     elif o["scorer"] == "random": kw["scorer"] = RandomScorer(random.Random(o["seed"]))
     n = 0
+    import logging as _logging
+    _lg = _logging.getLogger("ctparse")
+    _old_level = _lg.level
+    if o.get("debug_logging"):
+        # the host application's logging configuration is part of the process environment
+        if not any(isinstance(h, _logging.NullHandler) for h in _lg.handlers): _lg.addHandler(_logging.NullHandler())
+        _lg.setLevel(_logging.DEBUG); _lg.propagate = False
     try:
         norm = _preprocess_string(text)
         for r in ctparse_gen(text, ts=to_ts(ts), **kw):
@@ -81,11 +88,15 @@ def fuzz_case(case):
         import traceback
         tb = traceback.extract_tb(e.__traceback__)
         probs.append(("EXC", type(e).__name__ + ": " + str(e)[:60], " < ".join("%s:%d" % (f.name, f.lineno) for f in tb[-3:])))
+    finally:
+        if o.get("debug_logging"):
+            _lg.setLevel(_old_level)
     return {"n": n, "probs": probs}
 
 
 def gen_fuzz_cases(rng, n):
-    refs = [(2018, 3, 7, 12, 43, 0), (2020, 2, 29, 23, 59, 59), (2019, 12, 31, 0, 0, 0), (2021, 1, 31, 9, 0, 1), (1970, 1, 1, 0, 0, 0), (2100, 12, 31, 23, 59, 59), (2019, 2, 28, 12, 0, 0)]
+    refs = [(2018, 3, 7, 12, 43, 0), (2020, 2, 29, 23, 59, 59), (2019, 12, 31, 0, 0, 0), (2021, 1, 31, 9, 0, 1), (1970, 1, 1, 0, 0, 0), (2100, 12, 31, 23, 59, 59), (2019, 2, 28, 12, 0, 0),
+            (50, 6, 15, 12, 0, 0), (99, 12, 31, 23, 59, 59), (2020, 3, 28, 22, 30, 0), (2020, 10, 25, 2, 30, 0)]
     cases = []
     import unicodedata
     for i in range(n):
@@ -98,7 +109,7 @@ def gen_fuzz_cases(rng, n):
         else:
             t = rng.choice(TOKS) + rng.choice(["", " ", "\t", ",", "("]) + "".join(chr(rng.randint(32, 0x24F)) for _ in range(rng.randint(0, 6))) + rng.choice(TOKS)
         o = {"latent": rng.random() < 0.5, "depth": rng.choice([0, 1, 10]), "rml": rng.choice([1.0, 0.5, 0.25, 0.0625, 0.75]), "scorer": rng.choice(["shipped", "shipped", "const", "random"]),
-             "seed": rng.randrange(1000), "debug": rng.random() < 0.15, "timeout": 0 if rng.random() < 0.8 else 0.5}
+             "seed": rng.randrange(1000), "debug": rng.random() < 0.15, "timeout": 0 if rng.random() < 0.8 else 0.5, "debug_logging": rng.random() < 0.12}
         if o["depth"] == 0 and k >= 3 and o["timeout"] == 0:
             o["timeout"] = 1.0          # unlimited depth on 3-4 ambiguous chunks is exponential: bound the wall time of the case
         cases.append((t, rng.choice(refs), o))
@@ -120,7 +131,7 @@ def sweep_fuzz(rng, tier, which):
     for c, r in zip(cases, recs):
         ncand += r["n"]
         if r["n"]: seen.add((c[0], c[1], json.dumps(c[2], sort_keys=True)))
-        dist["scorer=" + c[2]["scorer"]] += 1; dist["depth=%d" % c[2]["depth"]] += 1; dist["latent=%s" % c[2]["latent"]] += 1
+        dist["scorer=" + c[2]["scorer"]] += 1; dist["depth=%d" % c[2]["depth"]] += 1; dist["latent=%s" % c[2]["latent"]] += 1; dist["debug_logging=%s" % bool(c[2].get("debug_logging"))] += 1
         for kind, what, detail in r["probs"]:
             if (which == "C01" and kind == "EXC") or (which == "C01" and kind == "WF" and ("subject" in what or "labels" in what or "score" in what)) or (which == "C02" and kind == "WF" and not ("subject" in what or "labels" in what)):
                 fails.append({"text": c[0], "ts": list(c[1]), "opts": c[2], "expected": "no exception, well-formed candidates", "observed": "%s %s %s" % (kind, what, detail), "what": "%s fuzz: %s" % (which, what.split(":")[0])})
@@ -172,7 +183,9 @@ def sweep_c02(rng, tier):
 
 
 # ------------------------------------------------------------------ C09
-INERT = ["xyzzy", "qwrk", "lunch", "with", "bob", "call", "buy", "milk", "pay", "rent", "gym", "zoo", "jog", "привет", "会议", "ξένος", "hello", "hxyz", "hybrid", "blorp"]
+INERT = ["xyzzy", "qwrk", "lunch", "with", "bob", "call", "buy", "milk", "pay", "rent", "gym", "zoo", "jog", "привет", "会议", "ξένος", "hello", "hxyz", "hybrid", "blorp",
+         # decomposed spellings (base letter + combining mark): any normalisation between matching and reporting shifts offsets
+         "cafe\u0301", "Zoe\u0308", "sen\u0303or", "Lu\u0308beck", "x\u0301y", "a\u030a"]
 
 
 def c09_case(case):
@@ -350,6 +363,20 @@ def sweep_c10(rng, tier):
         if not items: continue
         txt = "".join(x[1] + rng.choice(seps) for x in items).rstrip() if rng.random() < 0.8 else " ".join(x[1] for x in items)
         cases.append((items, txt, ts))
+    # long texts: dozens of words before / around the expression (nothing in the statement bounds the number of words)
+    _init()
+    _C = sys.modules["ctparse.ctparse"]
+    from ctparse.rule import _regex as _rxs
+    really_inert = [w for w in inert if not _C._match_regex(_C._preprocess_string(w), _rxs)]
+    for _ in range(60 if tier == "thorough" else 12):
+        nw = rng.randint(34, 90)
+        ws = [rng.choice(really_inert) for _ in range(nw)]
+        tg = [rng.choice(tags) for _ in range(rng.randint(0, 3))]
+        pos_e = rng.choice([nw, nw, rng.randint(33, nw), rng.randint(0, nw)])
+        items = [("w", w) for w in ws[:pos_e]] + [("e", rng.choice(exprs))] + [("w", w) for w in ws[pos_e:]]
+        for t in tg:
+            items.insert(rng.randint(0, len(items)), ("t", t))
+        cases.append((items, " ".join(x[1] for x in items), ts))
     ctx = mp.get_context("fork")
     with ctx.Pool(min(16, os.cpu_count() or 1)) as pool:
         recs = pool.map(c10_case, cases, chunksize=10)
@@ -439,6 +466,30 @@ def sweep_c11(rng, tier):
             v = rng.choice(["", run()]) + v + rng.choice(["", run()])
             v = "".join((rng.choice(dashes) * rng.randint(1, 2)) if ch == "-" else ch for ch in v)
             cases.append((t, v, (2018, 3, 7, 12, 43, 0), True))
+    # ligature spellings (one code point that upper-cases to two letters): every word of the pattern languages that contains
+    # ff/fi/fl/ffi/ffl/st, written with the ligature, alone and in three short frames, against its own upper case
+    LIG = [("ffi", "\ufb03"), ("ffl", "\ufb04"), ("ff", "\ufb00"), ("fi", "\ufb01"), ("fl", "\ufb02"), ("st", "\ufb06")]
+    from ctparse.rule import rules as _rules
+    lw = set()
+    for name in _rules:
+        k = 0
+        while True:
+            try:
+                ws = G.L(name, k, limit=3000)
+            except IndexError:
+                break
+            except Exception:
+                ws = []
+            lw.update(w for w in ws if any(a in w for a, _ in LIG))
+            k += 1
+    lw = sorted(lw)
+    if tier != "thorough" and len(lw) > 160:
+        lw = rng.sample(lw, 160) + [w for w in lw if w in ("five", "1sten", "august", "stunden", "first", "gestern")]
+    for w in lw:
+        x = w
+        for a, b in LIG: x = x.replace(a, b)
+        for form in ("%s", "%s 8 uhr", "5 %s", "am %s"):
+            cases.append(((form % x).upper(), form % x, (2018, 3, 7, 12, 43, 0)))
     # multi-character case folds are outside the domain (DESIGN §9): variants containing them are not generated by str.upper() of these texts except ß -> SS
     cases = [c for c in cases if not ("ß" in c[0] and "SS" in c[1]) and not ("ß" in c[0] and "Ss" in c[1])]
     ctx = mp.get_context("fork")
@@ -886,6 +937,22 @@ def sweep_c13(rng, tier):
     for f, d in res:
         fails += f
         for k, v in d.items(): dist[k] += v
+    # spellings of "practically unlimited" and of zero: every int and float is a legal timeout
+    _init()
+    from ctparse import ctparse as _cp, ctparse_gen as _cg
+    from codec import enc_art as _ea
+    ts0 = (2018, 3, 7, 12, 43, 0)
+    for t in ["tomorrow 5pm", "9-5", "gargelbabel"]:
+        base = [(_ea(p.resolution), round(p.score, 9)) for p in _cg(t, ts=to_ts(ts0), timeout=0) if p is not None]
+        for v in [10 ** 400, 2 ** 1024, sys.maxsize, float("inf"), 1e308, 10 ** 18, 0, 0.0, -0.0, False]:
+            dist["timeout spellings"] += 1
+            try:
+                got = [(_ea(p.resolution), round(p.score, 9)) for p in _cg(t, ts=to_ts(ts0), timeout=v) if p is not None]
+                r = _cp(t, ts=to_ts(ts0), timeout=v); str(r)
+                if got != base:
+                    fails.append({"text": t, "ts": list(ts0), "opts": {"timeout": repr(v)}, "expected": "the stream without a limit", "observed": "%d candidates instead of %d" % (len(got), len(base)), "what": "C13 unlimited spelling"})
+            except Exception as e:
+                fails.append({"text": t, "ts": list(ts0), "opts": {"timeout": repr(v)}, "expected": "never raises", "observed": "%s: %s" % (type(e).__name__, str(e)[:80]), "what": "C13 raises"})
     return {"evaluations": sum(dist.values()), "distinct_nontrivial": dist["expiry points"], "failures": fails, "samples": [{"text": t, "depth": d} for t, d in texts[:4]], "distribution": dict(dist),
             "rule": "virtual clock (ctparse.timers.perf_counter replaced by a counter): every expiry point between two clock reads of each run is enumerated; emissions must be a prefix of the unlimited stream, nothing raises, "
                     "no operation after the first failing check, and rule-applicability analyses / rule applications / scorings between two checks stay within a bound that does not depend on the number of candidate sequences"}
@@ -951,6 +1018,30 @@ def sweep_c14(rng, tier):
     with ctx.Pool(min(16, os.cpu_count() or 1)) as pool:
         recs = pool.map(c14_case, cases, chunksize=4)
     fails, seen, dist = [], set(), collections.Counter()
+    # call histories with ONE scorer object whose state changes between calls (a seeded random scorer re-seeded before each
+    # pair of calls): "identical arguments" includes the scorer's state at the time of the call
+    _init()
+    from ctparse import ctparse as _cp, ctparse_gen as _cg
+    from ctparse.scorer import RandomScorer as _RS
+    from codec import enc_art as _ea
+    for t, ts in rng.sample(ex, 12) + [("at 8", (2018, 3, 7, 12, 43, 0)), ("tomorrow 5pm", (2018, 3, 7, 12, 43, 0))]:
+        rr = random.Random(0); shared = _RS(rr)
+        for sd in (1, 2, 3, 1):
+            try:
+                rr.seed(sd); stream = [p for p in _cg(t, ts=to_ts(ts), timeout=0, scorer=shared) if p is not None]
+                rr.seed(sd); single = _cp(t, ts=to_ts(ts), timeout=0, scorer=shared)
+                dist["shared stateful scorer"] += 1
+                key = lambda p: (_ea(p.resolution), tuple(str(x) for x in p.production))
+                if stream:
+                    mx = max(p.score for p in stream)
+                    if single.resolution is None or single.score != mx or not any(key(p) == key(single) and p.score == single.score for p in stream):
+                        fails.append({"text": t, "ts": list(ts), "opts": {"scorer": "one RandomScorer object, rng re-seeded to %d before each call" % sd, "history": "same arguments were used before with seeds 1.."},
+                                      "expected": "single result = a maximal-score candidate of the stream under the scorer's current state (max %r)" % mx,
+                                      "observed": "returned score %r" % (single.score,), "what": "C14: returned parse"})
+                elif single.resolution is not None:
+                    fails.append({"text": t, "ts": list(ts), "opts": {"scorer": "shared"}, "expected": "empty", "observed": "resolution although the stream is empty", "what": "C14: stream empty"})
+            except Exception as e:
+                fails.append({"text": t, "ts": list(ts), "opts": {"scorer": "shared"}, "expected": "no exception", "observed": type(e).__name__, "what": "C14: exception"})
     for c, r in zip(cases, recs):
         dist["scorer=" + c[2]["scorer"]] += 1; dist["candidates"] += r["n"]
         if r["n"] > 1: seen.add((c[0], json.dumps(c[2], sort_keys=True)))
@@ -1093,6 +1184,35 @@ def c15_case(case):
     return {"ok": len(yielded), "closure": cnt}
 
 
+def c15_history_main():
+    """fresh interpreter: the rule base is a live registry (`@rule` may be used at any time); what the registered rules license
+    is re-decided after every change of the registry, also for texts of a shape that was parsed before the change"""
+    _init()
+    from ctparse.rule import rule, predicate, rules
+    from ctparse.types import Time
+    ts = (2020, 11, 25, 12, 0, 0)
+    out = []
+    def run(phase, texts):
+        for t in texts:
+            for o in ({"scorer": "const", "depth": 0, "seed": 0}, {"scorer": "shipped", "depth": 0, "seed": 0}):
+                r = c15_case((t, ts, o))
+                for p in r.get("fail", []):
+                    out.append({"text": t, "ts": list(ts), "opts": dict(o, history=phase), "observed": p})
+    run("shipped rules only", ["5pm monday", "8:30 friday", "montag 9 uhr"])
+
+    @rule(predicate("isTOD"), predicate("isDOW"))
+    def ruleQaTodDow(ts_, tod, dow):
+        return Time(hour=tod.hour, minute=tod.minute, DOW=dow.DOW)
+
+    @rule(predicate("isDOW"), predicate("isTOD"))
+    def ruleQaDowTod(ts_, dow, tod):
+        return Time(hour=tod.hour, minute=tod.minute, DOW=dow.DOW)
+    run("after two rules were registered at run time (texts of shapes parsed before)", ["7pm friday", "9:15 sunday", "dienstag 10 uhr", "5pm monday"])
+    del rules["ruleQaTodDow"]; del rules["ruleQaDowTod"]
+    run("after the two rules were removed again", ["6pm tuesday", "mittwoch 11 uhr", "5pm monday"])
+    print(json.dumps(out))
+
+
 def sweep_c15(rng, tier):
     import multiprocessing as mp
     from ctparse.time.corpus import corpus
@@ -1119,6 +1239,15 @@ def sweep_c15(rng, tier):
         if r.get("ok", 0) >= 1: seen.add((c[0], json.dumps(c[2], sort_keys=True)))
         for p in r.get("fail", []):
             fails.append({"text": c[0], "ts": list(c[1]), "opts": c[2], "expected": "streamed = derivable; complete without depth limit; traces replay; rules do not alter their arguments", "observed": p, "what": "C15: " + " ".join(p.split(" ")[:3])})
+    # registry history in a fresh interpreter
+    code = "import sys; sys.path.insert(0, %r); sys.path.insert(0, %r); import warnings; warnings.simplefilter('ignore'); import sweeps2; sweeps2.c15_history_main()" % (REPO, os.path.join(VERIF, "harness"))
+    pr = subprocess.run(["/venv/bin/python", "-c", code], capture_output=True, text=True, timeout=900)
+    dist["registry histories"] = 3
+    if pr.returncode != 0:
+        fails.append({"text": "(registry history)", "ts": None, "opts": {}, "expected": "runs", "observed": pr.stderr[-400:], "what": "C15: registry history"})
+    else:
+        for f in json.loads(pr.stdout.strip().split("\n")[-1]):
+            fails.append({"text": f["text"], "ts": f["ts"], "opts": f["opts"], "expected": "streamed = what the *currently registered* rules license", "observed": f["observed"], "what": "C15: registry history"})
     return {"evaluations": len(cases), "distinct_nontrivial": len(seen), "failures": fails, "samples": [{"text": c[0], "opts": c[2], "closure": r.get("closure")} for c, r in list(zip(cases, recs))[:5]], "distribution": dict(dist),
             "rule": "short texts (<= 24 chars, derivation closure enumerable) x {constant, shipped, seeded random scorer} x depth limits; independent brute-force closure of rule applications on private copies vs the real stream; replay of reported productions; argument snapshots around every rule application"}
 
@@ -1208,6 +1337,34 @@ def sweep_c16(rng, tier):
                 if sc2._model.predict_log_proba([q]) != mdl.predict_log_proba([q]):
                     fails.append({"text": json.dumps(q), "ts": None, "opts": {}, "expected": "same scores after save/load", "observed": "differs", "what": "C16 save/load"})
                 dist["save/load"] += 1
+    # "for any training set": the SAME model object fitted again on another training set answers for the new set — also for
+    # documents it was asked about before the re-fit, also after save/re-load
+    for i in range(40 if tier == "thorough" else 10):
+        alpha, docsA, labelsA = gen_corpus(rng)
+        _, docsB, labelsB = gen_corpus(rng)
+        try:
+            mdl = train_naive_bayes(docsA, labelsA)
+            qs = [list(docsA[0]), list(docsB[0]), [rng.choice(alpha + ["unseen"]) for _ in range(rng.randint(1, 9))]]
+            sc = NaiveBayesScorer(mdl)
+            a = Time(); a.mstart, a.mend = 0, 4
+            for q in qs:
+                mdl.predict_log_proba([q])
+                if q: sc.score("x" * 12, None, PartialParse((a,), tuple(q)))
+            mdl.fit(docsB, [1 if y_ else -1 for y_ in labelsB])      # the label encoding of train_naive_bayes
+            for q in qs:
+                dist["queries after re-fit"] += 1
+                got = mdl.predict_log_proba([q])[0]
+                want = textbook_nb(docsB, labelsB, q)
+                if not (abs(got[0] - want[0]) < 1e-9 and abs(got[1] - want[1]) < 1e-9):
+                    fails.append({"text": json.dumps(q), "ts": None, "opts": {"history": "fitted on A, queried, fitted again on B", "docsB": docsB, "labelsB": labelsB},
+                                  "expected": "textbook NB of the current training set %r" % (want,), "observed": repr(got), "what": "C16 re-fit"})
+                if q:
+                    s1 = sc.score("x" * 12, None, PartialParse((a,), tuple(q)))
+                    e1 = (want[1] - want[0]) + math.log(4 / 12)
+                    if abs(s1 - e1) > 1e-9:
+                        fails.append({"text": json.dumps(q), "ts": None, "opts": {"history": "scorer built before the re-fit"}, "expected": repr(e1), "observed": repr(s1), "what": "C16 re-fit score"})
+        except Exception as e:
+            fails.append({"text": json.dumps(docsB), "ts": None, "opts": {"history": "re-fit"}, "expected": "re-fit works", "observed": "%s: %s" % (type(e).__name__, e), "what": "C16 re-fit raises"})
     # every candidate of (a sample of) the bundled corpus under the shipped model: finite, normalised, equals the recomputation from the pickled tables
     from ctparse.time.corpus import corpus
     from ctparse import ctparse_gen
@@ -1263,25 +1420,30 @@ def sweep_c17(rng, tier):
         if back != gold:
             fails.append({"text": gold.nb_str(), "ts": None, "opts": {}, "expected": "parse_nb_string(nb_str(x)) == x", "observed": back.nb_str(), "what": "C17 gold round trip"})
     entries += extra
-    for e in entries:
-        cands = [p for p in ctparse_gen(e.text, e.ts, relative_match_len=1.0, timeout=0, max_stack_depth=0, scorer=DummyScorer(), latent_time=False) if p is not None]
-        want = []
-        for p in cands:
-            def same(a, b):
-                if type(a) != type(b): return False
-                if isinstance(a, Time): return all(getattr(a, k) == getattr(b, k) for k in ("year", "month", "day", "hour", "minute", "DOW", "POD"))
-                if isinstance(a, Interval): return all((x is None and y is None) or (x is not None and y is not None and same(x, y)) for x, y in ((a.t_from, b.t_from), (a.t_to, b.t_to)))
-                return a.value == b.value and a.unit == b.unit
-            y = same(p.resolution, e.gold)
-            for i in range(1, len(p.production) + 1):
-                want.append(([str(x) for x in p.production[:i]], y))
-        got = [(list(X), bool(y)) for X, y in make_partial_rule_dataset([e], DummyScorer(), timeout=0, max_stack_depth=0)]
-        got_list = list(make_partial_rule_dataset([e], DummyScorer(), timeout=0, max_stack_depth=0))     # materialised: aliases would show here
-        got2 = [(list(X), bool(y)) for X, y in got_list]
-        dist["dataset entries"] += 1
-        seen.add(e.text)
-        if got != want or got2 != want:
-            fails.append({"text": e.text, "ts": str(e.ts), "opts": {"gold": e.gold.nb_str()}, "expected": "%d samples: one per trace prefix, label = value equality with gold" % len(want), "observed": "%d samples, %d positive (expected %d positive)" % (len(got2), sum(y for _, y in got2), sum(y for _, y in want)), "what": "C17 dataset"})
+    # every option the builder forwards is honoured: relative_match_len incl. 0 (every initial sequence), depth limits
+    optsets = [(1.0, 0), (0.0, 0), (0.5, 0), (1.0, 10), (0.0, 3)]
+    for ei, e in enumerate(entries):
+        for (rml, depth) in (optsets if ei < len(golds) else optsets[:2]):
+            cands = [p for p in ctparse_gen(e.text, e.ts, relative_match_len=rml, timeout=0, max_stack_depth=depth, scorer=DummyScorer(), latent_time=False) if p is not None]
+            want = []
+            for p in cands:
+                def same(a, b):
+                    if type(a) != type(b): return False
+                    if isinstance(a, Time): return all(getattr(a, k) == getattr(b, k) for k in ("year", "month", "day", "hour", "minute", "DOW", "POD"))
+                    if isinstance(a, Interval): return all((x is None and y is None) or (x is not None and y is not None and same(x, y)) for x, y in ((a.t_from, b.t_from), (a.t_to, b.t_to)))
+                    return a.value == b.value and a.unit == b.unit
+                y = same(p.resolution, e.gold)
+                for i in range(1, len(p.production) + 1):
+                    want.append(([str(x) for x in p.production[:i]], y))
+            got = [(list(X), bool(y)) for X, y in make_partial_rule_dataset([e], DummyScorer(), timeout=0, max_stack_depth=depth, relative_match_len=rml)]
+            got_list = list(make_partial_rule_dataset([e], DummyScorer(), timeout=0, max_stack_depth=depth, relative_match_len=rml))     # materialised: aliases would show here
+            got2 = [(list(X), bool(y)) for X, y in got_list]
+            dist["dataset entries"] += 1
+            seen.add(e.text)
+            # with a depth limit the constant scorer's tie order is not fixed: compare as multisets
+            norm_ = (lambda l: sorted(l, key=repr)) if depth else (lambda l: l)
+            if norm_(got) != norm_(want) or norm_(got2) != norm_(want):
+                fails.append({"text": e.text, "ts": str(e.ts), "opts": {"gold": e.gold.nb_str(), "relative_match_len": rml, "max_stack_depth": depth}, "expected": "%d samples: one per trace prefix, label = value equality with gold" % len(want), "observed": "%d samples, %d positive (expected %d positive)" % (len(got2), sum(y for _, y in got2), sum(y for _, y in want)), "what": "C17 dataset"})
     # run_corpus on a mini corpus of every result type
     mini = [(g.nb_str(), "2018-03-07T12:43", [t]) for t, g in golds if not (t == "3 days" and g.unit == DurationUnit.HOURS)]
     try:
